@@ -57,6 +57,7 @@ def class_mismatch(outs):
 
 
 def check(stats, m, env, var, as_object=False, sub="routes", info=None):
+    m = safe(m)
     stats.case()
     vs = M.variables(m)
     r, ctx = DV.value_context(m, env)
@@ -196,6 +197,7 @@ def structural(stats, m, env, var, as_object, case, where, defined):
 def check_reuse(stats, m, var, envs, sub="reuse"):
     """One derivative OBJECT queried at several points in a row ("evaluate your derivative at many x values" is the
     documented use of compute_early=True): every answer must be what a freshly built object gives at that point."""
+    m = safe(m)
     stats.case()
     vs = M.variables(m)
     kinds = [("Partial", False), ("Partial", True), ("Differential", False), ("Differential", True)]
